@@ -10,6 +10,13 @@ Proof. exact norm_shape_args_spec. Qed.
 Goal True. idtac "ASSUMPTIONS ctor_shape_args_match_spec". Abort.
 Print Assumptions ctor_shape_args_match_spec.
 
+(* rand/randn: same forms, except that a 0-d result is rejected (raises), never answered differently *)
+Theorem ctor_rand_shape_args :
+  forall args, norm_shape_args_rand args = match spec_shape_args args with Some [] => None | r => r end.
+Proof. intro args. unfold norm_shape_args_rand. rewrite norm_shape_args_spec. reflexivity. Qed.
+Goal True. idtac "ASSUMPTIONS ctor_rand_shape_args". Abort.
+Print Assumptions ctor_rand_shape_args.
+
 (* arange(start, stop, step>0) has exactly the elements start + k*step below stop *)
 Theorem arange_elements :
   forall start stop step n, (0 < step)%Z -> arange_len start stop step = Some n ->
